@@ -455,7 +455,7 @@ def _reject_low_port(cfg):
 
 
 # --------------------------------------------------------------------------- include fields (document route)
-INC_BAD = (5, [1], True, {"a": 1}, "missing.mem", "adir", 1.5)
+INC_BAD = (5, [1], True, {"a": 1}, "missing.mem", "adir", 1.5, "")
 
 
 @obligation(prop="C15", sites=("rejected", "type", "path"), stubs=("FakeFS", "MemFormat"),
@@ -468,7 +468,7 @@ INC_BAD = (5, [1], True, {"a": 1}, "missing.mem", "adir", 1.5)
                  "(the document route resolves includes before load_tree and has its own rejection site)")
 def reject_include_value(nested: bool, route: int, bad_i: int) -> bool:
     """
-    pre: 0 <= route <= 2 and 0 <= bad_i < 7
+    pre: 0 <= route <= 2 and 0 <= bad_i < 8
     post: _
     """
     from cincoconfig import IncludeField
@@ -497,6 +497,11 @@ def reject_include_value(nested: bool, route: int, bad_i: int) -> bool:
                 cfg.inc = bad
         except Exception as e:  # noqa: BLE001
             exc = e
+    if bad == "":
+        # an empty path names no file: every route treats it as "no include"; what must never happen is a
+        # rejection of another type (open('') -> FileNotFoundError)
+        return hold("type", exc is None or isinstance(exc, ValidationError),
+                    lambda: "empty include value surfaced as %s (%s)" % (type(exc).__name__, exc))
     hold("rejected", exc is not None, "unusable include value %r accepted" % (bad,))
     hold("type", isinstance(exc, ValidationError),
          lambda: "rejection of include value %r surfaced as %s (%s), not ValidationError" % (bad, type(exc).__name__, exc))
@@ -559,4 +564,43 @@ def reject_path_dict_in_list(nested: bool, route: int, in_entry: bool, i: int) -
         # a direct mutator on the list value raises the item field's bare ValueError (like built-in containers);
         # the path clause applies to rejections that come back as the library's validation error
         hold("path", route == 3 and not in_entry, lambda: "rejection surfaced as %r" % (exc,))
+    return True
+
+
+# --------------------------------------------------------------------------- typed dict entries that cannot be DECODED
+@obligation(prop="C15", sites=("rejected", "type", "path"), stubs=("MemFormat",), budget={"quick": 60, "thorough": 120},
+            encodes=["cincoconfig.fields.dict_field.DictField.to_python"],
+            examples=({"nested": False, "route": 0, "ki": 0, "bad_i": 0},),
+            what="a typed dict whose values have an on-disk encoding (bytes as base64): an entry that cannot be "
+                 "decoded when a tree or document is loaded is a ValidationError naming the dict field AND the key")
+def reject_path_dict_decode(nested: bool, route: int, ki: int, bad_i: int) -> bool:
+    """
+    pre: 0 <= route <= 1 and 0 <= ki <= 1 and 0 <= bad_i <= 2
+    post: _
+    """
+    from cincoconfig import BytesField
+    key = _pick(DKEYS, ki)
+    bad = _pick(("abc", 5, ["x"]), bad_i)         # bad padding / not text at all
+    schema = Schema()
+    owner = schema.s if nested else schema
+    owner.blobs = DictField(StringField(), BytesField(), default=lambda: {})
+    owner.pad = IntField(default=0)
+    want = ("s.blobs[%s]" if nested else "blobs[%s]") % key
+    leaf = {"ok": "QUJD", key: bad}
+    tree = {"s": {"blobs": leaf}} if nested else {"blobs": leaf}
+    mem = MemStore()
+    exc = None
+    with mem.registered():
+        cfg = schema()
+        try:
+            if route == 0:
+                cfg.load_tree(tree)
+            else:
+                cfg.loads(mem.put(tree), format="mem")
+        except Exception as e:  # noqa: BLE001
+            exc = e
+    hold("rejected", exc is not None, "undecodable entry accepted")
+    hold("type", isinstance(exc, ValidationError), lambda: "surfaced as %s" % type(exc).__name__)
+    hold("path", exc.ref_path == want and str(exc).startswith(want),
+         lambda: "error path %r, expected %r" % (exc.ref_path, want))
     return True
